@@ -136,21 +136,26 @@ class TypeHint(Generic[T_Hint], metaclass=_TypeHintMetaclass):
 
         # Isinstance class originating this hint if any *OR* "None" otherwise,
         # defined as either...
-        self._origin: type = (
-            # If this hint originates from an origin type, that type;
-            get_hint_pep_origin_type_or_none(
-                hint=hint,
-                # If this hint is a type defining the "__origin__" dunder
-                # attribute to be a non-type, fallback to euphemistically
-                # claiming that this hint originates from "itself." Boooo!
-                is_self_fallback=True,
-            ) or
-            # Else, this hint does *NOT* originate from an origin type. In this
-            # case, the root superclass "object" of *ALL* classes, guaranteeing
-            # sanity when this instance variable is passed as either the first
-            # or second parameters to the issubclass() builtin.
-            object
+        self._origin: type = get_hint_pep_origin_type_or_none(  # type: ignore[assignment]
+            hint=hint,
+            # If this hint is a type defining the "__origin__" dunder attribute
+            # to be a non-type, fallback to euphemistically claiming that this
+            # hint originates from "itself." Boooo!
+            is_self_fallback=True,
         )
+
+        # If this hint does *NOT* originate from an origin type, fallback to the
+        # root superclass "object" of *ALL* classes, guaranteeing sanity when
+        # this instance variable is passed as either the first or second
+        # parameters to the issubclass() builtin.
+        #
+        # Note that this origin type is intentionally tested against "None"
+        # rather than for falsiness. Types are usually but *NOT* necessarily
+        # truthy (e.g., a type whose metaclass defines the __len__() or
+        # __bool__() dunder methods is falsy while nonetheless remaining a
+        # perfectly valid origin type).
+        if self._origin is None:
+            self._origin = object
 
         # Tuple of all low-level child type hints of this hint *AFTER* defining
         # all other instance variables. Deferring this call allows subclass
